@@ -713,9 +713,30 @@ class QueryPlanner:
     def plan_cte(self, query):
 
         for cte in query.cte:
-            step = self.plan_select(cte.query)
+            cte_query = cte.query
+            if cte.columns:
+                cte_query = self.apply_cte_columns(cte)
+            step = self.plan_select(cte_query)
             name = cte.name.parts[-1]
             self.cte_results[name] = step.result
+
+    @staticmethod
+    def apply_cte_columns(cte):
+        # WITH c (a, b) AS (SELECT x, y ...): the outputs of the CTE are named by the column list
+        cte_query = copy.deepcopy(cte.query)
+        select = cte_query
+        while isinstance(select, (Union, Except, Intersect)):
+            # the outputs of a set operation are named by its first select
+            select = select.left
+        if (
+            not isinstance(select, Select)
+            or len(select.targets) != len(cte.columns)
+            or any(isinstance(target, Star) for target in select.targets)
+        ):
+            raise PlanningException(f'Column list of CTE {cte.name.to_string()} does not fit its query')
+        for target, column in zip(select.targets, cte.columns):
+            target.alias = Identifier(parts=[column.parts[-1]])
+        return cte_query
 
     def check_single_integration(self, query):
         query_info = self.get_query_info(query)
